@@ -7,6 +7,7 @@
  D3 the three '*'-wildcard matchers are identical algorithms
 """
 import re
+import json
 from .facts import kids, strip, walk, is_call, render, local_inits, AnalysisBroken
 from . import e1
 
@@ -354,4 +355,8 @@ def run(chk, fb, tier):
     _d2(chk, fb)
     _d3(chk, fb)
     _d4(chk, fb)
+    from . import argswap
+    chk.rule("D5", "argument/parameter name agreement at forwarding calls in the anchored units (same-typed parameters such as the decimal separator and the exponent marker must not be swapped)")
+    files = tuple(json.loads(l)["anchors"]["files"] for l in open(__import__("os").path.join(__import__("os").path.dirname(__import__("os").path.dirname(__file__)), "properties.jsonl")) if json.loads(l)["id"] == "C17")[0]
+    argswap.check(chk, fb, "D5", [f for f in fb.concrete_fns() if f.body is not None and any(f.relfile.endswith(x) for x in files)], 6)
     chk.assume("DirichletDiscreteDistribution is not part of the description language (named exemption)")
